@@ -8,8 +8,10 @@ package build
 // call is a numbered point at which the verification harness can kill the
 // process (VERIF_CRASH_AT=k, optionally tearing a write in half with
 // VERIF_CRASH_TORN=1; or VERIF_CRASH_MATCH=op|substr|suffix to die just before
-// a particular operation) or make the call fail (VERIF_FSERR=k:errno).  With none
-// of these variables set the seam only forwards.
+// a particular operation; or VERIF_CRASH_WRITE=substr|substr2 to die at the
+// first write to a matching path, with VERIF_CRASH_TORN=1 after half of it) or
+// make the call fail (VERIF_FSERR=k:errno, VERIF_FSERR_MATCH).  With none of
+// these variables set the seam only forwards.
 
 import (
 	"fmt"
@@ -133,6 +135,35 @@ func (verifOS) CreateTemp(dir, pattern string) (*verifFile, error) {
 	return &verifFile{f}, nil
 }
 
+func (verifOS) OpenFile(name string, flag int, perm os.FileMode) (*verifFile, error) {
+	if err := verifPoint("openfile", name); err != nil {
+		return nil, err
+	}
+	f, err := os.OpenFile(name, flag, perm)
+	if err != nil {
+		return nil, err
+	}
+	return &verifFile{f}, nil
+}
+
+func (verifOS) Create(name string) (*verifFile, error) {
+	return vos.OpenFile(name, os.O_RDWR|os.O_CREATE|os.O_TRUNC, 0o666)
+}
+
+// WriteFile is open + write + close, so that a kill or a disk error can land
+// between them as it can in os.WriteFile.
+func (verifOS) WriteFile(name string, data []byte, perm os.FileMode) error {
+	f, err := vos.OpenFile(name, os.O_WRONLY|os.O_CREATE|os.O_TRUNC, perm)
+	if err != nil {
+		return err
+	}
+	_, err = f.Write(data)
+	if err1 := f.Close(); err1 != nil && err == nil {
+		err = err1
+	}
+	return err
+}
+
 func (verifOS) Open(name string) (*verifFile, error) {
 	if err := verifPoint("open", name); err != nil {
 		return nil, err
@@ -148,6 +179,17 @@ func (v *verifFile) Name() string               { return v.f.Name() }
 func (v *verifFile) Read(p []byte) (int, error) { return v.f.Read(p) }
 
 func (v *verifFile) Write(p []byte) (int, error) {
+	if w := os.Getenv("VERIF_CRASH_WRITE"); w != "" {
+		// "<substring of the path>|<second substring>": die at the first write to such a file
+		m := strings.SplitN(w, "|", 2)
+		if len(m) == 2 && strings.Contains(v.f.Name(), m[0]) && strings.Contains(v.f.Name(), m[1]) {
+			verifPoint("write", v.f.Name())
+			if os.Getenv("VERIF_CRASH_TORN") != "" {
+				v.f.Write(p[:len(p)/2])
+			}
+			os.Exit(137)
+		}
+	}
 	if err := verifPoint("write", v.f.Name()); err != nil {
 		return 0, err
 	}
